@@ -129,9 +129,11 @@ where
                                 },
                             };
 
-                            // The chosen subscriber may have gone away while the value was awaited:
-                            // keep the value for another subscriber.
-                            if txs[pos].tx.is_closed() {
+                            // The chosen subscriber may have gone away or have been removed while the
+                            // value was awaited: keep the value for another subscriber.
+                            let removed =
+                                matches!(txs[pos].remove_rx.as_mut().map(|remove_rx| remove_rx.try_recv()), Some(Ok(())));
+                            if removed || txs[pos].tx.is_closed() {
                                 held = Some(value);
                                 txs.swap_remove(pos);
                             } else {
